@@ -83,7 +83,8 @@ def check_dataset(chk, r, paths, read_arg, rep, boxes, geometry=None):
     from spatialpandas import GeoDataFrame
     full = GeoDataFrame(full).set_geometry(active)
     for box in boxes:
-        given = box if r.random() < 0.6 else (box[2], box[3], box[0], box[1])       # reversed corners
+        # corners in any order: as given, both axes reversed, one axis reversed
+        given = r.choice((box, box, (box[2], box[3], box[0], box[1]), (box[2], box[1], box[0], box[3]), (box[0], box[3], box[2], box[1])))
         try:
             rb = read_parquet_dask(read_arg, geometry=geometry, bounds=given)
             kparts = list(dask.compute(*rb.to_delayed(), scheduler="synchronous"))
